@@ -25,7 +25,7 @@ from vf import core, gen_class
 ORACLE_SRC = r'''
 import sys, json, os, importlib, inspect, types
 
-def call(f, first):
+def call(f, first, depth=0):
     try:
         sig = inspect.signature(f)
     except Exception:
@@ -40,12 +40,16 @@ def call(f, first):
         r = f(first, *args, **kwargs)
         if inspect.iscoroutine(r):
             # drive the coroutine to completion (the generated awaitables never suspend)
+            co, r = r, None
             try:
                 for _ in range(1000):
-                    r.send(None)
-                r.close()
-            except StopIteration:
-                pass
+                    co.send(None)
+                co.close()
+            except StopIteration as e:
+                r = e.value
+        if isinstance(r, types.FunctionType) and depth == 0:
+            # a closure handed back to the caller (callback): the driver calls it once
+            call(r, None, 1)
     except Exception:
         pass
 
@@ -198,8 +202,22 @@ class Texts(object):
             t = self._trees[rel] = ast.parse(self.files[rel])
         return t
 
+    def _flat_top(self, stmts):
+        """top-level statements, including those inside top-level if / try alternatives"""
+        for st in stmts:
+            yield st
+            if isinstance(st, ast.If):
+                for x in self._flat_top(st.body + st.orelse):
+                    yield x
+            elif isinstance(st, ast.Try):
+                subs = st.body + st.orelse + st.finalbody
+                for h in st.handlers:
+                    subs = subs + h.body
+                for x in self._flat_top(subs):
+                    yield x
+
     def classdef(self, rel, name):
-        found = [n for n in self.tree(rel).body if isinstance(n, ast.ClassDef) and n.name == name]
+        found = [n for n in self._flat_top(self.tree(rel).body) if isinstance(n, ast.ClassDef) and n.name == name]
         return found[-1] if found else None
 
     @staticmethod
@@ -241,7 +259,7 @@ class Texts(object):
                 out.setdefault(n, []).append(line)
         return out
 
-    def self_sites(self, rel, name, only_async=False):
+    def self_sites(self, rel, name, only_async=False, only_nested=False):
         """{attr: [lines]} of assignments ``<first param>.attr = ...`` in functions of the class body."""
         out = {}
         cd = self.classdef(rel, name)
@@ -253,7 +271,13 @@ class Texts(object):
             if not isinstance(st, (ast.FunctionDef, ast.AsyncFunctionDef)) or not st.args.args:
                 continue
             first = st.args.args[0].arg
-            for n in ast.walk(st):
+            if only_nested:
+                # statements of functions nested (at any depth) in the method, not of the method itself
+                nodes = [x for f in ast.walk(st) if f is not st and isinstance(f, (ast.FunctionDef, ast.AsyncFunctionDef))
+                         for x in ast.walk(f)]
+            else:
+                nodes = ast.walk(st)
+            for n in nodes:
                 targets = []
                 if isinstance(n, ast.Assign):
                     targets = n.targets
@@ -496,6 +520,30 @@ def check_query(part, project, root, q, desc, only_attr=None):
 
     required = {}      # attr -> ('inst'|'class', mro index of the defining class or None)
     filtered_builtin = 0
+    compat_files = (project.get('meta') or {}).get('compat_files', {})
+    cmeta = (project.get('meta') or {}).get('classes', {})
+    # is the queried class, or a base on its MRO, named through a module that binds it conditionally?
+    through_cond = 'conditional-export' in q['via'] or any(
+        'conditional-export' in v for k in mro_src for v in cmeta.get(k['name'], {}).get('base_via', {}).values())
+    if through_cond:
+        part.count('queries_through_conditional_export')
+        for v in [q['via']] + [v for k in mro_src for v in cmeta.get(k['name'], {}).get('base_via', {}).values()]:
+            if 'conditional-export' in v:
+                part.hist('conditional_export_variants', v[v.index('('):v.index(')') + 1] + (' as base' if v != q['via'] else ' in E'))
+    nested_only = set()  # instance attributes assigned only inside functions nested in methods
+    def shape_suffix(n):
+        """structural features of a lost instance attribute (labels stay apart per mechanism)"""
+        out = ''
+        if n in nested_only:
+            out += '+assigned-only-in-nested-functions'
+        elif n in async_only:
+            out += '+assigned-only-in-async-methods'
+        if through_cond:
+            out += '+class-reached-through-conditional-export'
+        if not out and any(texts.reentrant_shape(k['file'], k['name']) for k in mro_src):
+            out = '+class-with-setter-or-alias-assignment'
+        return out
+
     async_only = set()  # instance attributes all of whose `self.x =` sites are inside async def methods
     builtin_first = {}  # attr -> (builtin class selected by the MRO, source classes later on the MRO binding it)
     names = set()
@@ -510,6 +558,13 @@ def check_query(part, project, root, q, desc, only_attr=None):
                 required[n] = ('inst', None)
                 asites = set((k['file'], ln) for k in mro_src
                              for ln in texts.self_sites(k['file'], k['name'], only_async=True).get(n, ()))
+                nsites = set((k['file'], ln) for k in mro_src
+                             for ln in texts.self_sites(k['file'], k['name'], only_nested=True).get(n, ()))
+                if nsites:
+                    part.count('required_instance_attrs_assigned_in_nested_functions')
+                    if nsites == self_sites[n]:
+                        part.count('required_instance_attrs_assigned_ONLY_in_nested_functions')
+                        nested_only.add(n)
                 if asites:
                     part.count('required_instance_attrs_assigned_in_async_methods')
                     if asites == self_sites[n]:
@@ -550,14 +605,13 @@ def check_query(part, project, root, q, desc, only_attr=None):
             own = any(s[0] == mro_src[0]['file'] and n in texts.self_sites(mro_src[0]['file'], mro_src[0]['name'])
                       for s in self_sites[n])
             where = 'instance-attr:own-method' if own else 'instance-attr:base-method'
-            if n in async_only:
-                where += '+assigned-only-in-async-methods'
-            elif any(texts.reentrant_shape(k['file'], k['name']) for k in mro_src):
-                where += '+class-with-setter-or-alias-assignment'
+            where += shape_suffix(n)
         else:
             i = mro_src.index(mro[first])
             where = 'own-class-attr' if i == 0 else 'base-class-attr:via=%s' % via_to(project, mro_src, i)
             where += ':' + mro[first]['kinds'].get(n, '?')
+            if through_cond:
+                where += '+class-reached-through-conditional-export'
         viol(part, 'missing:%s:%s' % (group, where),
                        '`%s.|` (%s) does not propose %r which Python finds (%s)' % (q['expr'], kind, n, where),
                        case({'check': 'assist', 'attr': n}))
@@ -664,10 +718,8 @@ def check_query(part, project, root, q, desc, only_attr=None):
         mech = None
         if not got:
             mech = 'no-location:%s' % expcat
-            if n in async_only:
-                mech += '+assigned-only-in-async-methods'
-            elif expcat == 'self-assign' and any(texts.reentrant_shape(k['file'], k['name']) for k in mro_src):
-                mech += '+class-with-setter-or-alias-assignment'
+            mech += shape_suffix(n) if expcat == 'self-assign' else \
+                ('+class-reached-through-conditional-export' if through_cond else '')
         else:
             cats = set()
             for s in got:
@@ -680,7 +732,7 @@ def check_query(part, project, root, q, desc, only_attr=None):
                         hit = (i, k)
                         break
                 if hit is None:
-                    cats.add('elsewhere')
+                    cats.add('other-alternative-of-conditional-export' if s[0] in compat_files else 'elsewhere')
                 elif X is not None and hit[1]['name'] == X['name']:
                     cats.add('same-class-earlier-binding')
                 elif X is not None:
@@ -700,7 +752,9 @@ def check_query(part, project, root, q, desc, only_attr=None):
                 else:
                     cat = 'self-assign(never executed)'
             mech = '%s->%s' % (expcat, cat)
-            if n in async_only:
+            if n in nested_only:
+                mech += '+assigned-only-in-nested-functions'
+            elif n in async_only:
                 mech += '+assigned-only-in-async-methods'
         viol(part, '%s:%s' % (group, mech),
                        '`%s.%s` (%s, %s): expected %s; supp lands on %s' % (q['expr'], n, kind, q['sub'], exp_desc, got or result),
@@ -803,7 +857,7 @@ def check_project(part, project, root, oracle, key, only=None):
         part.hist('features', f)
     meta = project.get('meta', {})
     for k in ('n_classes', 'n_function_members', 'n_async_methods', 'n_async_methods_assigning',
-              'n_classes_with_async_method'):
+              'n_classes_with_async_method', 'n_methods_with_nested_functions', 'n_conditional_exports'):
         if meta.get(k):
             part.count('generated_' + k[2:], meta[k])
     for f in project.get('meta', {}).get('import_forms', []):
